@@ -708,7 +708,7 @@ class Program:
                     a = v
                     break
         if a is not None:
-            return {i: v["name"] for i, v in enumerate(a["variants"])}
+            return {int(v.get("discr", i)): v["name"] for i, v in enumerate(a["variants"])}
         if head in STD_VARIANTS:
             return STD_VARIANTS[head]
         return {}
